@@ -590,6 +590,12 @@ func (o *messageOracle) compare(c *explore.Ctx, leg *world.Leg, m world.Msg, e e
 				bad = true
 			}
 		}
+		// the destination shard decides the payability exemption (callback, transfer-and-execute)
+		// by the call type the message carries: a continuation has to carry the type of the call it
+		// continues, or a transfer accepted on the sender shard is refused on arrival
+		if m.CallType != leg.Input.CallType && !leg.Forwarded {
+			c.Report(p, "continuation", cls+":call-type", fmt.Sprintf("the %s message emitted for a call of type %d carries call type %d: %s", fn, leg.Input.CallType, m.CallType, shortData(m.Data)))
+		}
 		if bad || mt.HasCall != e.Transfer.HasCall || !beq(mt.CallFn, e.Transfer.CallFn) || !argsEq(mt.CallArgs, e.Transfer.CallArgs) {
 			c.Report(p, "emitted", cls+":forward-content", fmt.Sprintf("forwarded %s message does not carry the listed tokens / attached call: %s", fn, shortData(m.Data)))
 		} else {
